@@ -57,7 +57,7 @@ func cmdManifest() int {
 		}
 	}
 	var checks []any
-	var na []any
+	na := []any{}
 	var served []string
 	for _, id := range ids {
 		ps := propByID(id)
